@@ -9,6 +9,7 @@
 (*   - a rotating-stride sample of the chains of three related calls;      *)
 (*   - every pair <<resolve, table>> and <<resolve, resolve>> over the     *)
 (*     same table (a name resolved, then the table read);                  *)
+(*   - every recompilation of a value on its own;                          *)
 (*   - every pair of text conversions (printing, parsing) and every pair   *)
 (*     of architecture lookups.                                            *)
 (* The driver draws a seeded, stratified sample from the file.             *)
@@ -18,7 +19,6 @@ CONSTANTS OutFile, Stride, Offset, Triples
 CallSeq == SetToSeq(Calls)
 N == Len(CallSeq)
 HasPol(c) == c.op \in {"compile", "dump", "load"}
-Dist(p, q) == (IF p.shape = q.shape THEN 0 ELSE 1) + (IF p.act = q.act THEN 0 ELSE 1) + (IF p.val = q.val THEN 0 ELSE 1)
 Related(a, b) == HasPol(a) /\ HasPol(b) /\ Dist(a.pol, b.pol) <= 1
 Pick(k) == (k + (k \div Stride)) % Stride = Offset
 PolIdx == {i \in 1..N : HasPol(CallSeq[i])}
@@ -30,6 +30,7 @@ Hists(dummy) ==
   \cup {<<CallSeq[i], CallSeq[j]>> : <<i, j>> \in {<<x, y>> \in (1..N) \X (1..N) :
             \/ (CallSeq[x].op \in {"text", "parse"} /\ CallSeq[y].op \in {"text", "parse"})
             \/ (CallSeq[x].op = "getinfo" /\ CallSeq[y].op = "getinfo")}}
+  \cup {<<CallSeq[i]>> : i \in {x \in 1..N : CallSeq[x].op = "recompile"}}
   \cup (IF Triples
         THEN {<<CallSeq[i], CallSeq[j], CallSeq[k]>> : <<i, j, k>> \in {<<x, y, z>> \in PolIdx \X PolIdx \X PolIdx :
                  Related(CallSeq[x], CallSeq[y]) /\ Related(CallSeq[y], CallSeq[z]) /\ Pick(((x * N + y) * N + z) \div 7)}}
